@@ -27,7 +27,12 @@ ASSUMPTIONS = [
 
 @st.composite
 def grids(draw, nmax):
-    kind = draw(st.sampled_from(["linear", "log", "irregular", "single"]))
+    kind = draw(st.sampled_from(["linear", "log", "irregular", "single", "fine"]))
+    if kind == "fine":
+        # steps of a few Angstrom: q_calc reaches beyond 2 pi/lambda
+        n = draw(st.integers(3, min(nmax, 20)))
+        lo_f, step = draw(st.floats(5, 20)), draw(st.floats(2, 8))
+        return kind, [S.sig(lo_f + k * step, 6) for k in range(n)]
     lo = 10 ** draw(st.floats(1, 3.5))
     decades = draw(st.floats(0.3, 2.0))
     hi = min(lo * 10 ** decades, 1e5)
@@ -109,24 +114,29 @@ def check_sesans(case, rec):
     G0 = sum(a_ / (2 * math.pi * s * s) for a_, s in zip(amps, ss))
     rec.nontrivial(bool(np.any((xi[:, None] / np.array(ss)[None, :] >= 0.1) & (xi[:, None] / np.array(ss)[None, :] <= 10))), case)
     lam_arr = np.full(len(xi), lam, float) if np.isscalar(lam) else np.array(lam, float)
-    if full:
+    # even at full acceptance (theta = pi/2) q values beyond 2 pi/lambda cannot be reached
+    tail = max(math.exp(-0.5 * ((2 * math.pi / lam_arr.max()) * s) ** 2) for s in ss)
+    if full and tail > 1e-9:
+        rec.cls("full-acceptance-but-wavelength-limits-q")
+    if full and tail <= 1e-9:
         want = sum(a_ * (np.exp(-xi ** 2 / (2 * s * s)) - 1.0) / (2 * math.pi * s * s) for a_, s in zip(amps, ss))
-        # at full acceptance theta<=pi/2 still removes q > 2 pi/lambda: negligible when I(q) is ~0 there
-        tail = max(math.exp(-0.5 * ((2 * math.pi / lam_arr.max()) * s) ** 2) for s in ss)
-        if tail > 1e-9:
-            rec.cls("full-acceptance-but-wavelength-limits-q")
-            return
     else:
+        # "over the calculated q range": both terms are integrated over [q_min, q_max] of q_calc,
+        # the J0 term additionally limited by the acceptance
         want = np.zeros(len(xi))
+        G0_range = sum(a_ * (math.exp(-0.5 * (qmin * s) ** 2) - math.exp(-0.5 * (qmax * s) ** 2)) / (2 * math.pi * s * s)
+                       for a_, s in zip(amps, ss))
         for j, x in enumerate(xi):
-            qm = (2 * math.pi / lam_arr[j]) * math.sin(theta)
+            qm = (2 * math.pi / lam_arr[j]) * math.sin(min(theta, math.pi / 2))
             tot = 0.0
             for a_, s in zip(amps, ss):
-                upper = min(qm, 12.0 / s)
-                val = integrate.quad(lambda t: j0(t * x) * math.exp(-0.5 * (t * s) ** 2) * t, 0, upper,
-                                     limit=2000, epsabs=1e-13 * a_ / (s * s), epsrel=1e-10)[0]
+                upper = min(qm, 12.0 / s, qmax)
+                val = 0.0
+                if upper > qmin:
+                    val = integrate.quad(lambda t: j0(t * x) * math.exp(-0.5 * (t * s) ** 2) * t, qmin, upper,
+                                         limit=2000, epsabs=1e-13 * a_ / (s * s), epsrel=1e-10)[0]
                 tot += a_ * val / (2 * math.pi)
-            want[j] = tot - G0
+            want[j] = tot - G0_range
     tol = 1e-3 * np.abs(want) + 2e-4 * G0
     bad = np.abs(got - want) > tol
     if np.any(bad):
